@@ -192,8 +192,9 @@ func ParseFlags(params []string, args *Arguments) (*FlagsT, []string, error) {
 // ParseFlags - this instance of ParseFlags is a wrapper function for ParseFlags (above) so you can use inside your
 // lang.Process.Parameters object
 func (p *Parameters) ParseFlags(args *Arguments) (flags *FlagsT, additional []string, err error) {
-	p.mutex.RLock()
-	defer p.mutex.RUnlock()
+	// ParseFlags rewrites alias flags in place so this needs the write lock
+	p.mutex.Lock()
+	defer p.mutex.Unlock()
 
 	return ParseFlags(p.params, args)
 }
